@@ -30,12 +30,12 @@ MeasuredOK(e) ==      \* the measured facts are well-formed and mutually consist
 
 EventVerdict(e) ==    \* event-level clauses; "ok" means the runs can be judged
     IF e.cfg.op = "gperm" THEN
-        IF ~ValidGperm(e.cfg) THEN "InDomain"
+        IF ~ValidGperm(e.cfg) \/ e.zeros \notin ZeroForms THEN "InDomain"
         ELSE IF e.data # DataOf(e.cfg) THEN "InputMatrix"
         ELSE IF e.full /\ {OptKey(e.runs[r]) : r \in 1..Len(e.runs)} # AllOpts(e.cfg.m, e.cfg.n) THEN "Coverage"
         ELSE "ok"
     ELSE IF e.cfg.op = "measured" THEN
-        IF ~MeasuredOK(e) THEN "InDomain" ELSE "ok"
+        IF ~MeasuredOK(e) \/ e.zeros # "pos" THEN "InDomain" ELSE "ok"
     ELSE "InDomain"
 
 Facts(e) == IF e.cfg.op = "gperm" THEN ExactFacts(e.cfg)
